@@ -14,6 +14,14 @@ PACKERS = ["ff", "ffd", "bf", "bfd"]
 COVERS = ["cover_decreasing", "twothirds", "threequarters"]
 
 
+def pick_obj(rng, objs):
+    """the three classical objectives (the only ones with pruning bounds) get 60% of the draws when the k-sum objectives are in the list"""
+    rest = [o for o in objs if o not in OBJS3]
+    if rest and any(o in OBJS3 for o in objs):
+        return rng.choice(OBJS3) if rng.random() < 0.6 else rng.choice(rest)
+    return rng.choice(objs)
+
+
 def part_params(rng, alg, n, k=None, objs=OBJS5, cut=False):
     """parameters for one partitioning call of `alg` on n items"""
     if k is None:
@@ -27,14 +35,14 @@ def part_params(rng, alg, n, k=None, objs=OBJS5, cut=False):
             p["k"] = min(p["k"], 4)     # with 5+ bins and many (zero-valued) items the k! combinations take minutes per call
     if alg == "cg":
         p.update(rng.choice(SWITCHES))
-        p["obj"] = rng.choice(objs)
+        p["obj"] = pick_obj(rng, objs)
         p["cut"] = rng.randint(0, 60) if cut else None
         p["k"] = min(p["k"], 6)
     if alg == "dp":
-        p["obj"] = rng.choice(objs)
+        p["obj"] = pick_obj(rng, objs)
         p["k"] = min(p["k"], 5)
     if alg == "ilp":
-        p["obj"] = rng.choice(objs)
+        p["obj"] = pick_obj(rng, objs)
         p["k"] = min(p["k"], 4)
     if alg == "cbldm":
         p = {"k": 2, "d": rng.choice([None, None, 1, 2, 3, n]), "cut": (rng.randint(1, 60) if cut else None)}
